@@ -118,6 +118,12 @@ func (c *Cluster) fairSuffix(spec *runSpec) {
 		if c.fairQuiescentAt > 0 {
 			break
 		}
+		if c.tooBig() {
+			// cost cap: no liveness verdict from this run
+			c.capped = true
+			c.stats.probe("fair-suffix-capped-undetermined")
+			break
+		}
 	}
 	c.stats.probeMax("fair-cycles-max", c.fairQuiescentAt)
 }
